@@ -61,6 +61,9 @@ pub struct Scenario {
     /// predicted events (Gen scenarios), compared for DRIFT only
     #[serde(default)]
     pub pred: Vec<serde_json::Value>,
+    /// children whose destructor panics once
+    #[serde(default)]
+    pub drop_panic: Vec<u32>,
     #[serde(default)]
     pub id: String,
 }
@@ -429,7 +432,10 @@ impl Runner {
         let al = take_allocs();
         let mut ended = false;
         match r {
-            Err(()) => ev(format!(r#"{{"e":"ret","res":"panic","c":0,"k":0,"al":{}}}"#, al)),
+            Err(()) => {
+                let _ = al;
+                ev(r#"{"e":"ret","res":"panic","c":0,"k":0,"al":0}"#.to_string())
+            }
             Ok(PollOut::Pending) => ev(format!(r#"{{"e":"ret","res":"pending","c":0,"k":0,"al":{}}}"#, al)),
             Ok(PollOut::None) => {
                 ended = true;
@@ -639,6 +645,9 @@ pub fn run_scenario(sc: &Scenario, run: u64, hooklog: bool) {
         }
         for (c, n) in &sc.stream_left {
             w.stream_left.insert(*c, *n);
+        }
+        for c in &sc.drop_panic {
+            w.drop_panic.insert(*c);
         }
     });
     *UP.lock().unwrap() = Some(UpState {
